@@ -383,7 +383,8 @@ class World:
                     d[h] = mk()
                 layer = type(lname, bases or (object,), d)
             else:
-                layer = _InstanceLayer(lname, bases, self.module_name)
+                layer = (_FalsyInstanceLayer if lspec.get('falsy') else _InstanceLayer)(
+                    lname, bases, self.module_name)
                 for h in hooks:
                     run = self._hook(lname, h)
                     setattr(layer, h, (lambda run=run, n=lname: run(n)))
@@ -507,7 +508,8 @@ class World:
                 pass
         elif via == 'fd':
             os.write(2 if w.get('stream') == 'stderr' else 1,
-                     text.encode('utf-8'))
+                     tok.encode('utf-8') + bytes.fromhex(w.get('rawhex', '')) +
+                     (b'\n' if w.get('nl', True) else b''))
         else:
             stream.write(text)
             try:
@@ -648,6 +650,14 @@ class _InstanceLayer:
 
     def __repr__(self):
         return '<InstanceLayer %s>' % self.__name__
+
+
+class _FalsyInstanceLayer(_InstanceLayer):
+    """a layer object that is falsy (e.g. a container of resources that is
+    still empty when the tests are discovered)"""
+
+    def __len__(self):
+        return 0
 
 
 def load_world_from_env():
